@@ -529,7 +529,7 @@ func (m c13) Run(c *core.Ctx) {
 		c.Nontrivial(fmt.Sprintf("probe%d", pi))
 	}
 	// generated programs
-	n := c.Pick(250, 5000)
+	n := c.Pick(250, 12000)
 	o := gen.Opts{MaxStmts: 22, MaxDepth: 4, ExprDepth: 3, Try: 0.3, Throw: 0.08, Funcs: 0.7, Shadow: 0.15, BuiltinShadow: 0.12, LogProb: 0.1,
 		Consts: 0.6, Globals: true, DeepRecursion: 10, Faults: 0.002}
 	for i := 0; i < n; i++ {
